@@ -38,6 +38,9 @@ def run(tier):
         chk.sample(mc.pretty(ev[10]))
     chk.cov["programs"] = len(mine)
     chk.cov["disagreements_checked"] = len(mine)
+    # the same refusals in the library's DEFAULT failure configuration (no exceptions, no custom handler): the process ends
+    import abortcommon
+    abortcommon.judge(chk, wd, "C02")
     chk.count(evaluations=total, distinct=len(combos), traces=1)
     chk.sample({"program": mine[0]["text"], "verdict": mine[0]["verdict"]})
     chk.cov["exhaustive"] = True
